@@ -28,7 +28,7 @@ TIERS = {
     "quick": {"shards": 8, "budget_s": 50},
     "thorough": {"shards": 16, "budget_s": 540},
 }
-MIN_EVENTS = {"quick": 60, "thorough": 1000}
+MIN_EVENTS = {"quick": 800, "thorough": 1000}
 DECIDING = {"frame", "linear-equals-first-order"}
 RULE = (
     "families N (nonlinear, steady state known by construction, log-variables), L (linear, for the first-order comparison), "
@@ -374,7 +374,7 @@ def replay(c, case):
 def shard(c):
     install()
     rng = c.rng
-    n = c.scale(90, 2500)
+    n = c.scale(360, 2500)
     for i in range(n):
         if c.out_of_time():
             break
